@@ -6,7 +6,9 @@ import (
 	"fmt"
 	"os"
 	"path/filepath"
+	"runtime"
 	"sort"
+	"strconv"
 	"strings"
 	"sync"
 	"time"
@@ -86,6 +88,7 @@ func main() {
 		*tier = env
 	}
 	t0 := time.Now()
+	startWatchdog(*tier)
 	w := &World{tier: *tier, debug: *debug, repo: *repo, verifDir: *verif, regexCache: map[string]*Term{}, crossB: *cross}
 	w.registerIntrinsics()
 	w.loadKnown()
@@ -173,6 +176,39 @@ func main() {
 	rep := &Report{w: w, prop: *prop, tier: *tier, results: results, loadS: loadS, t0: t0, noReplay: *noReplay, solver: *solverK}
 	code := rep.finish()
 	os.Exit(code)
+}
+
+// startWatchdog: a check must never take the machine down or run away.  Resident memory above
+// the limit (VERIF_MEM_GB, default 16) or a run longer than the budget (VERIF_BUDGET_MIN,
+// default 45 min quick / 240 min thorough) ends the check as inconclusive (exit 2).
+func startWatchdog(tier string) {
+	memGB := 16
+	if v, err := strconv.Atoi(os.Getenv("VERIF_MEM_GB")); err == nil && v > 0 {
+		memGB = v
+	}
+	budget := 45
+	if tier == "thorough" {
+		budget = 240
+	}
+	if v, err := strconv.Atoi(os.Getenv("VERIF_BUDGET_MIN")); err == nil && v > 0 {
+		budget = v
+	}
+	start := time.Now()
+	go func() {
+		var ms runtime.MemStats
+		for {
+			time.Sleep(250 * time.Millisecond)
+			runtime.ReadMemStats(&ms)
+			if ms.HeapInuse > uint64(memGB)<<30 {
+				fmt.Printf("INCONCLUSIVE: engine memory above %d GB (term blow-up on this tree); no verdict\n", memGB)
+				os.Exit(2)
+			}
+			if time.Since(start) > time.Duration(budget)*time.Minute {
+				fmt.Printf("INCONCLUSIVE: time budget of %d minutes exhausted; no verdict\n", budget)
+				os.Exit(2)
+			}
+		}
+	}()
 }
 
 func traceKeys(ts []*opTrace) string {
